@@ -534,6 +534,13 @@ fn run_threads_case(i: u64, rng: &mut Rng, rep: &mut Report, tiny: bool) {
                 };
                 match w {
                     Some(w) => {
+                        if let Err(e) = &w.msg {
+                            // not a request at all (e.g. a message ID that is not a BER INTEGER in range): nobody will
+                            // ever be answered under it; end the connection instead of leaving its caller waiting
+                            sh2.violations.lock().unwrap().push(format!("undecodable:{} {}", e, ber::hex(&w.raw[..w.raw.len().min(24)])));
+                            server.eof();
+                            break;
+                        }
                         if let Ok(m) = w.msg {
                             sh2.requests.fetch_add(1, SeqCst);
                             if m.id < 1 || m.id > MAX as i64 {
@@ -590,23 +597,36 @@ fn run_threads_case(i: u64, rng: &mut Rng, rep: &mut Report, tiny: bool) {
         }
         drop(ldap);
         let mut fails = 0;
+        // generous wall-clock guard: its expiry says nothing about the property
+        let guard = tokio::time::Instant::now() + std::time::Duration::from_secs(120);
         for h in hs {
-            fails += h.await.unwrap_or(1000);
+            match tokio::time::timeout_at(guard, h).await {
+                Ok(r) => fails += r.unwrap_or(1000),
+                Err(_) => return (0, "GUARD-EXPIRED".to_string()),
+            }
         }
-        let _ = srv.await;
-        let d = drv.await;
+        let _ = tokio::time::timeout_at(guard, srv).await;
+        let d = tokio::time::timeout_at(guard, drv).await;
         (fails, format!("{:?}", d))
     });
+    if outcome.1 == "GUARD-EXPIRED" {
+        rep.inconclusive(format!("threads case {}: client tasks still running after 120 s of wall-clock time", i));
+        rep.case(None);
+        return;
+    }
     let replay = json!({"lane":"threads","case":i});
     let v = sh.violations.lock().unwrap().clone();
     let dups: Vec<&String> = v.iter().filter(|s| s.starts_with("dup")).collect();
     if !dups.is_empty() {
         rep.violation("C05:two-in-flight-operations-share-a-message-id", format!("{} duplicate(s), e.g. {:?}; {} workers {} tasks", dups.len(), &dups[..dups.len().min(5)], workers, tasks), replay.clone());
     }
+    if let Some(u) = v.iter().find(|s| s.starts_with("undecodable")) {
+        rep.violation("C05:request-not-decodable(message-id-not-a-valid-integer-in-range)", format!("{}; {} workers {} tasks", u, workers, tasks), replay.clone());
+    }
     if v.iter().any(|s| s.starts_with("range")) {
         rep.violation("C05:message-id-out-of-range", format!("{:?}", &v[..v.len().min(5)]), replay.clone());
     }
-    if outcome.0 > 0 && dups.is_empty() {
+    if outcome.0 > 0 && dups.is_empty() && !v.iter().any(|s| s.starts_with("undecodable")) {
         rep.violation("C05:operations-failed-under-concurrency", format!("{} failed; driver {}", outcome.0, outcome.1), replay.clone());
     }
     rep.count("requests_checked", sh.requests.load(SeqCst));
@@ -642,5 +662,101 @@ pub fn replay(ctx: &Ctx, v: &Value) -> Report {
             run_threads_case(i, &mut rng, &mut rep, false);
         }
     }
+    rep
+}
+
+// ---------------- octet boundaries of the ID's INTEGER encoding ----------------
+
+/// The ID a request leaves the client with is the ID the client allocated for it, everywhere in the
+/// range: the counter is positioned (ID hook) a few steps below 2^k and 2^k - 2^(k-8)... for every k,
+/// a handful of operations of different kinds is run across the boundary, and the IDs the scripted
+/// server decodes (with its own strict INTEGER reader) must be the allocated ones, in 1..=2^31-1.
+pub fn boundaries(ctx: &Ctx) -> Report {
+    let mut rep = Report::new();
+    let mut points: Vec<i32> = vec![];
+    for k in 7..31u32 {
+        let p = 1i64 << k;
+        for d in [0i64, -(1 << (k.saturating_sub(8))), 1 << (k.saturating_sub(8)), p / 2] {
+            let v = p + d;
+            if v > 8 && v < MAX as i64 - 8 {
+                points.push(v as i32);
+            }
+        }
+    }
+    points.extend_from_slice(&[0x8000, 0x807f, 0x8080, 0xff7f, 0xffff, 0x80_0000, 0x80_007f, 0xff_ff7f, 0x7fff_ff00]);
+    points.sort_unstable();
+    points.dedup();
+    if ctx.tiny {
+        points.truncate(6);
+    }
+    let mut rng = case_rng(ctx.seed, "boundaries", 0);
+    for (pi, &p) in points.iter().enumerate() {
+        let rt = runtime(rng.next());
+        let span = 6usize;
+        let (allocated, wire) = rt.block_on(async move {
+            let c = connect();
+            let mut ldap = c.ldap;
+            let mut server = c.server;
+            let srv = tokio::spawn(async move {
+                let mut seen: Vec<(i64, String, bool)> = vec![];
+                while let Some(w) = server.request().await {
+                    match &w.msg {
+                        Ok(m) => {
+                            // strict: the INTEGER content must be the shortest form
+                            let strict = match ber::decode(&w.raw) {
+                                Ok((ber::Node::C { kids, .. }, _, _)) => matches!(kids.first(), Some(ber::Node::P { data, .. }) if *data == ber::int_content(m.id)),
+                                _ => false,
+                            };
+                            seen.push((m.id, m.op.kind().to_string(), strict));
+                            if let Some(r) = reply_for(&m.op, Res::ok("ok")) {
+                                server.send(&ber::encode_min(&resp_node(m.id, &r, None)));
+                            }
+                        }
+                        Err(e) => seen.push((i64::MIN, format!("undecodable: {} {}", e, ber::hex(&w.raw[..w.raw.len().min(24)])), false)),
+                    }
+                }
+                seen
+            });
+            ldap.verif_set_last_id(p - (span as i32) / 2);
+            let mut allocated = vec![];
+            for k in 0..span {
+                let call = match k % 3 {
+                    0 => Call::Delete { dn: format!("op={}", k) },
+                    1 => Call::Compare { dn: format!("op={}", k), attr: "a".into(), val: b"v".to_vec() },
+                    _ => Call::Extended { name: "1.3.6.1.4.1.4203.1.11.3".into(), val: None },
+                };
+                let o = world::watchdog(invoke(&mut ldap, &call)).await.unwrap_or(Outcome::Hung);
+                allocated.push((ldap.last_id(), o.class()));
+            }
+            drop(ldap);
+            let seen = srv.await.unwrap_or_default();
+            let _ = c.driver.await;
+            (allocated, seen)
+        });
+        let replay = json!({"lane":"boundaries","point":p});
+        for (k, (id, outcome)) in allocated.iter().enumerate() {
+            match wire.get(k) {
+                Some((wid, kind, strict)) => {
+                    if *wid == i64::MIN {
+                        rep.violation("C05:request-not-decodable-near-an-octet-boundary-of-the-id", format!("allocated ID {}: {}", id, kind), replay.clone());
+                    } else if *wid != *id as i64 {
+                        rep.violation(if *wid < 1 || *wid > MAX as i64 { "C05:id-out-of-range-on-the-wire" } else { "C05:wire-id-differs-from-the-allocated-id" }, format!("the client allocated ID {} ({}), the request left with message ID {}", id, kind, wid), replay.clone());
+                    } else if !*strict {
+                        rep.count("ids_in_a_non_shortest_encoding(not judged)", 1);
+                    }
+                    if outcome != "Ok" && *wid == *id as i64 {
+                        rep.violation("C05:operation-failed-near-an-octet-boundary-of-the-id", format!("ID {} ({}): {}", id, kind, outcome), replay.clone());
+                    }
+                }
+                None => rep.violation("C05:request-missing-near-an-octet-boundary-of-the-id", format!("allocated ID {} never reached the server (outcome {})", id, outcome), replay.clone()),
+            }
+            rep.count("ids_checked_across_octet_boundaries", 1);
+        }
+        rep.case(Some(p as u64));
+        if pi < 2 {
+            rep.sample(json!({"lane":"boundaries","counter_positioned_below":p,"allocated":allocated.iter().map(|a| a.0).collect::<Vec<_>>(),"wire":wire.iter().map(|w| w.0).collect::<Vec<_>>()}));
+        }
+    }
+    rep.exhaustive.push("counter positions around 2^k, 2^k +- 2^(k-8) and 1.5 * 2^k for every k in 7..=30, six operations across each".into());
     rep
 }
